@@ -152,6 +152,90 @@ func runC12(p *Prog, r *Report) {
 	if want("C12.4") {
 		ruleStickyWriter(p, r, "C12.4")
 	}
+	if want("C12.5") {
+		ruleDamageReported(p, r, "C12.5")
+	}
+}
+
+// ruleDamageReported: once nextChunk has a chunk header in front of it (j+headerSize <= n), the
+// only ways on are accepting the chunk or reporting through corrupt() — which is what makes the
+// callers drop the record under construction (tolerant mode) or stop (strict mode). A header that
+// is silently stepped over (continue / fall through to the next block) lets the next block's
+// first chunk be taken as the continuation of the current record: the reader yields a record that
+// was never written, and strict mode sees no error.
+func ruleDamageReported(p *Prog, r *Report, rule string) {
+	r.Begin(rule, "E-ORD", "journal damage is never stepped over silently: in Reader.nextChunk every path from a parsed chunk header leads to acceptance (r.last set, return nil) or to corrupt() whose result is returned; no path reaches the next block read or a return otherwise; singleReader.Read hands out payload only after nextChunk(false) returned nil", 3)
+	defer r.End()
+	fn := resolveFn(p, r, "leveldb/journal", "(*Reader).nextChunk")
+	if fn == nil {
+		return
+	}
+	tR := "leveldb/journal.Reader"
+	hdrFits := cmpAtom("j+headerSize<=n", token.LEQ, func(v ssa.Value) bool {
+		b, ok := isBin(v, token.ADD)
+		return ok && ((isFieldLoad(b.X, tR, "j") && mConstInt(7)(b.Y)) || (isFieldLoad(b.Y, tR, "j") && mConstInt(7)(b.X)))
+	}, mFieldLoad(tR, "n"))
+	var starts []point
+	instrs(fn, func(b *ssa.BasicBlock, _ int, in ssa.Instruction) {
+		iff, ok := in.(*ssa.If)
+		if !ok {
+			return
+		}
+		wt, wf := hdrFits.Match(iff.Cond)
+		if wt > 0 {
+			starts = append(starts, point{b.Succs[0], 0})
+		} else if wf > 0 {
+			starts = append(starts, point{b.Succs[1], 0})
+		}
+	})
+	r.Site(len(starts))
+	if len(starts) == 0 {
+		r.Fail(fnName(fn), "header-branch:unresolved-anchor", "nextChunk tests r.j+headerSize <= r.n before parsing a header", "test not found", p.Pos(fn.Pos()), nil)
+		return
+	}
+	corrupt := evCall("(*leveldb/journal.Reader).corrupt")
+	accept := evStoreField(tR, "last")
+	leave := orPred(isReturn, evCall("io.ReadFull"), func(in ssa.Instruction) bool {
+		// re-testing the header condition = having looped around
+		iff, ok := in.(*ssa.If)
+		if !ok {
+			return false
+		}
+		wt, wf := hdrFits.Match(iff.Cond)
+		return wt != 0 || wf != 0
+	})
+	if w := findPath(starts, nil, orPred(corrupt, accept), leave); w != nil {
+		r.Fail(fnName(fn), "header-stepped-over", "a parsed header is accepted or reported", "a path from a parsed chunk header reaches "+p.posOfLast(w, leave)+" without accepting the chunk or calling corrupt(): damage is skipped silently and the next block's first chunk continues the current record", p.posOfLast(w, leave), p.renderPath(w))
+	} else {
+		r.OK(fnName(fn), "header-accepted-or-reported", "a parsed header is accepted or reported")
+	}
+	// corrupt()'s verdict is what nextChunk returns
+	r.Site(1)
+	bad := ""
+	instrs(fn, func(_ *ssa.BasicBlock, _ int, in ssa.Instruction) {
+		if c, ok := in.(*ssa.Call); ok && corrupt(c) {
+			used := false
+			for _, ref := range *c.Referrers() {
+				if _, ok := ref.(*ssa.Return); ok {
+					used = true
+				}
+				if st, ok := ref.(*ssa.Store); ok && st.Val == c {
+					used = true
+				}
+			}
+			if !used {
+				bad = p.Pos(c.Pos())
+			}
+		}
+	})
+	r.Check(bad == "", fnName(fn), "corrupt-verdict-returned", "the result of corrupt() (skip / strict error) is returned to the caller", "corrupt() result dropped at "+bad, bad)
+	// acceptance requires the checks to have passed: r.last is set only after the type/length/CRC gates (C12.1)
+	// callers: a non-nil result of nextChunk(false) abandons the record
+	if rd := resolveFn(p, r, "leveldb/journal", "(*singleReader).Read"); rd != nil {
+		nc := evCall("(*leveldb/journal.Reader).nextChunk")
+		errNil := nilAtom("x.err==nil", mFieldLoad("leveldb/journal.singleReader", "err"))
+		checkGuard(p, r, GuardSpec{Rule: "continuation-error-abandons-record", Fn: rd, Starts: after(rd, nc), Avoid: nc, Target: evCall("builtin:copy"), TargetDesc: "copying payload into the caller's buffer after a continuation read", Atoms: []Atom{errNil}, G: func(a []bool) bool { return a[0] }, GDesc: "nextChunk(false) returned nil", MinTargets: 1})
+	}
 }
 
 // ruleJournalLayoutAgreement: writer and reader agree on header layout and checksummed range.
